@@ -109,6 +109,9 @@ def _same_values(u, v):
         try:
             if x != x and y != y:
                 continue
+            # a phase that went through (phi + pi/2) - pi/2 differs in the last bit: not a different circuit
+            if abs(complex(x) - complex(y)) <= 1e-12 * max(abs(complex(x)), abs(complex(y))):
+                continue
         except Exception:
             pass
         return False
@@ -264,14 +267,10 @@ def model_dump(ctx, a, res, rec):
     return None
 
 
-@op("sc.dump", writes="path", seam="dump_fcn", model=model_dump)
+@op("sc.dump", writes="path", model=model_dump)
 def sc_dump(ctx, a, seam):
+    # always the schematic module's own dump/load pair (they may add an envelope, a checksum ... of their own)
     elm, sdl, circuit_translator, sch = _mods()
-    if seam.used:
-        # the same public path with the dump function passed explicitly (SimpleCircuit.dump_load.dump is
-        # functools.partial(dump_load.dump, dump_fcn=serialize)); the wrapper lets other clients run mid-dump
-        from CircuitCalculator import dump_load as dl
-        return dl.dump(a["path"], ctx.arg(a["d"]), dump_fcn=seam.wrap(sdl.serialize))
     return sdl.dump(a["path"], ctx.arg(a["d"]))
 
 
@@ -289,12 +288,9 @@ def model_load(ctx, a, res, rec):
     return _judge(ctx, res, origin, rec, "load")
 
 
-@op("sc.load", reads="path", seam="deserialize_fcn", handle=True, snap=True, model=model_load)
+@op("sc.load", reads="path", handle=True, snap=True, model=model_load)
 def sc_load(ctx, a, seam):
     elm, sdl, circuit_translator, sch = _mods()
-    if seam.used:
-        from CircuitCalculator import dump_load as dl
-        return dl.load(a["path"], deserialize_fcn=seam.wrap(sdl.deserialize))
     return sdl.load(a["path"])
 
 
@@ -340,9 +336,7 @@ def build_twin(data):
                 cls = elm.LabeledLine
             else:
                 cls = getattr(elm, CLASSES[t])
-            kw.setdefault("name", "")
-            kw.setdefault("reverse", False)
-            el = cls(**kw)
+            el = cls(**kw)        # exactly what a programme would write: no defaults borrowed from the front end
             direction = e.get("direction", "")
             if direction in ("right", "left", "up", "down"):
                 getattr(el, direction)(e.get("length", 1) * unit)
